@@ -187,7 +187,11 @@ def safe_callable_names(root: ast.Module) -> Collection[str]:
             if core.match_template(
                 child, ast.FunctionDef(name=("__init__", "__post_init__", "__new__"))
         )}
-        if not constructors - safe_callable_nodes:
+        # Constructors may be inherited, so all base classes must be known to be safe as well
+        bases_are_safe = not node.keywords and all(
+            isinstance(base, ast.Name) and base.id in safe_callables for base in node.bases
+        )
+        if bases_are_safe and not constructors - safe_callable_nodes:
             safe_callables.add(node.name)
 
     return safe_callables
